@@ -76,9 +76,9 @@ func (tc *typechecker) checkIdentifier(ident *ast.Identifier, used bool) *typeIn
 
 	// If ident is an upvar, add it as upvar for current function and for all
 	// nested functions and update all indexes.
-	if isUpVar {
-		// TODO: decl can have type *ast.Import but indirectVars only allows identifiers.
-		identDecl, _ := decl.(*ast.Identifier)
+	// If ident has been declared by an import declaration, it is a native
+	// variable and is handled below as the predeclared variables.
+	if identDecl, ok := decl.(*ast.Identifier); ok && isUpVar {
 		tc.compilation.indirectVars[identDecl] = true
 		upvar := ast.Upvar{Declaration: identDecl}
 		for _, fn := range tc.getNestedFuncs(ident.Name) {
@@ -95,8 +95,9 @@ func (tc *typechecker) checkIdentifier(ident *ast.Identifier, used bool) *typeIn
 		}
 	}
 
-	// Handle predeclared variables in templates.
-	if tc.opts.mod == templateMod {
+	// Handle predeclared variables in templates and native variables declared
+	// by an 'import . "pkg"' declaration.
+	if _, ok := decl.(*ast.Import); ok || tc.opts.mod == templateMod {
 		// The identifier refers to a native value that is an up value for
 		// the current function.
 		if isUpVar && ti.IsNative() {
